@@ -55,6 +55,12 @@ func ParseFilterRules(rules []string) (*filterRuleList, error) {
 	return &l, nil
 }
 
+// Matches reports whether the first rule matching name is an exclude rule.
+// A receiver uses it to protect excluded entries from --delete.
+func (l *filterRuleList) Matches(name string) bool {
+	return l.matches(name)
+}
+
 // exclude.c:recv_filter_list
 func RecvFilterList(c *rsyncwire.Conn) (*filterRuleList, error) {
 	var l filterRuleList
